@@ -148,10 +148,15 @@ def check_escaper(ctx, f, mir, crate, prefix):
         except (ValueError, KeyError, TypeError):
             continue
     if tbl is None:
-        obs.append(ob(prefix + "/table", False, where, "no match over `char` with literal/range patterns and a catch-all found: the escape table cannot be verified"))
-        return obs, None
+        # not one table: decide the same facts per character class (see escaper_by_classes)
+        o2, forms2 = escaper_by_classes(ctx, f, prefix)
+        return obs + o2, forms2
     m, rows = tbl
     cvar = sir.expr_str(m["e"])
+    if any(len(arm_action(arm["body"], cvar)) != 1 for _rs, arm in rows):
+        # a match over the character that does not write by itself (it selects something written later): per-class analysis
+        o2, forms2 = escaper_by_classes(ctx, f, prefix)
+        return obs + o2, forms2
     # quotes written around
     quotes = [n for n in sir.walk(f.body) if n.get("k") == "mcall" and n["m"] == "push" and n["args"] and n["args"][0].get("k") == "lit" and n["args"][0].get("v") == '"']
     in_match = [id(x) for x in sir.walk(m)]
@@ -247,6 +252,86 @@ def check_escaper(ctx, f, mir, crate, prefix):
                       sample={"ranges": eff[:4], "action": act[0]}))
     want = 0x110000 - 0x800
     obs.append(ob(prefix + "/partition", total_points == want, where, "arms partition %d of %d Unicode scalar values" % (total_points, want)))
+    return obs, forms
+
+
+def escaper_by_classes(ctx, f, prefix):
+    """The emitter looks at each character only through comparisons with character constants (literal and range patterns,
+    `==`, helper predicates made of those).  All characters between two neighbouring constants therefore take the same path:
+    the per-character body is interpreted abstractly (lib/absint.py) for both ends of every such class, and what it writes
+    must be that character or an escape that decodes to it.  Any construct outside that fragment taints the path -> undecided."""
+    import absint as ai
+    ob = ctx.ob
+    where = ctx.where(f)
+    obs = []
+    idx = ctx.tc if f in ctx.tc.fns else None
+    helpers = {}
+    if idx is not None:
+        for g in sir.reach(idx, f):
+            if g is not f and g.body:
+                helpers[g.name] = g
+    loops = [n for n in sir.walk(f.body) if n.get("k") == "for" and any(x.get("k") == "mcall" and x["m"] == "chars" for x in sir.walk(n["e"]))]
+    if len(loops) != 1:
+        return [ob(prefix + "/table", None, where, "the emitter is neither one table over `char` nor one loop over `chars()`: the escape table is not decided for this tree")], None
+    lp = loops[0]
+    cuts = {0, 0x20, 0x7F, 0xA0, 0xD800, 0xE000, 0x10000, 0x110000}
+    for must in (0x22, 0x5C, 0xA, 0xD, 0x2028, 0x2029):   # the characters that may never pass raw are classes of their own
+        cuts.update((must, must + 1))
+    for body in [f.body] + [g.body for g in helpers.values()]:
+        for n in sir.walk(body):
+            if n.get("k") == "lit" and n.get("t") == "char" and isinstance(n.get("v"), str) and len(n["v"]) == 1:
+                cuts.update((ord(n["v"]), ord(n["v"]) + 1))
+    cuts = sorted(c for c in cuts if 0 <= c <= 0x110000)
+    classes = [(a, b - 1) for a, b in zip(cuts, cuts[1:]) if not (0xD800 <= a <= 0xDFFF)]
+    it = ai.Interp(idx=idx, inline=helpers)
+    forms = set()
+    undecided = []
+    for lo, hi in classes:
+        problems = []
+        texts = set()
+        for cp in sorted({lo, hi}):
+            it.paths = 0
+            it.for_value = chr(cp)
+            env = {n_: ai.FREE for n_ in f.param_names() if n_}
+            try:
+                outs = it.run({"k": "block", "stmts": [{"k": "expr", "e": lp, "semi": True}]}, env)
+            except ai.TooManyPaths:
+                outs = None
+            ent = [o for o in (outs or []) if ("for-enter",) in o.events]
+            if not ent or any(o.tainted for o in ent):
+                undecided.append((lo, hi))
+                break
+            got = set("".join(ev[1] for ev in o.events[o.events.index(("for-enter",)):] if ev[0] == "write") for o in ent)
+            if len(got) != 1:
+                problems.append("U+%04X: different paths write different text %s" % (cp, sorted(got)))
+                continue
+            text = got.pop()
+            texts.add(text if text != chr(cp) else "<itself>")
+            if text == chr(cp):
+                if cp in (0x22, 0x5C, 0xA, 0xD, 0x2028, 0x2029):
+                    problems.append("U+%04X passes through unescaped" % cp)
+                elif cp < 0x20:
+                    problems.append("C0 control U+%04X passes through raw" % cp)
+                continue
+            d = decode_js_escape(text)
+            if d is None:
+                problems.append("U+%04X is written as %r, which is not one valid JS escape" % (cp, text))
+                continue
+            if d[0] != cp:
+                problems.append("U+%04X is written as %r, which decodes to U+%04X" % (cp, text, d[0]))
+            if not d[1]:
+                problems.append("%r changes meaning when a digit follows (legacy octal)" % text)
+            if not wxml_accepts(text):
+                problems.append("%r is not read back by the WXML string parser" % text)
+            forms.add(text[:2])
+        else:
+            obs.append(ob("%s/class/%x-%x" % (prefix, lo, hi), not problems, where, "; ".join(problems) if problems else "U+%04X..U+%04X -> %s: decodes to itself" % (lo, hi, sorted(texts))))
+    if undecided:
+        obs.append(ob(prefix + "/table", None, where, "character classes %s are decided by a construct outside the interpreted fragment: not decided for this tree" % ["%x-%x" % c for c in undecided[:4]]))
+    quotes = [n for n in sir.walk(f.body) if n.get("k") == "mcall" and n["m"] == "push" and n["args"] and n["args"][0].get("k") == "lit" and n["args"][0].get("v") == '"']
+    inl = set(id(x) for x in sir.walk(lp))
+    outer = [q for q in quotes if id(q) not in inl]
+    obs.append(ob(prefix + "/quotes", len(outer) == 2, where, "opening and closing double quote written outside the per-character loop: %d" % len(outer)))
     return obs, forms
 
 
